@@ -101,9 +101,14 @@ CLAIMS = {
             "debug == release == model.", "DESIGN.md §4 C09"),
     "C10": ("Theorems C10_tracker_truth (for every event trace: what the report lists has a matching exit event at the reported "
             "position), C10_position_ge_start, C10_location (a rejected full parse reports at or after the EOI attempt following the "
-            "matched prefix). Tie: Tracker::finish() of the real code vs the model's fold for every run; location checks; rendering "
-            "twice + second process; semantic audit on the real code (expected rules re-run at the reported location).",
-            "DESIGN.md §4 C10"),
+            "matched prefix), C10_trace_sound / C10_report_truthful / C10_report_unexpected_matches (every logged exit event and every "
+            "listed rule is backed by the rule body's verdict in the state it was tried in), C10_report_says / C10_report_complete / "
+            "C10_report_lists_sorted / C10_rendered_report_truthful (Model/Report.v = collect_to_message: the rendered lines call a rule "
+            "expected / unexpected exactly when it is in the entry's positives / negatives, so truthfulness holds of the text). Tie: "
+            "Tracker::finish() and the rendered report lines of the real code vs the model for every run; location checks; the harness "
+            "re-derives every rendered line from finish(); rendering twice + second process; semantic audit on the real code (expected "
+            "rules re-run at the reported location).",
+            "DESIGN.md §4 C10, §10"),
     "C15": ("Theorems C15_preorder / C15_levelorder / C15_render / C15_thin for every rose tree (loops = recursive specs, fuel bound "
             "proved); tie: real iterators.rs on all tree shapes up to the tier's node bound + random trees.", "DESIGN.md §4 C15"),
 }
